@@ -216,7 +216,7 @@ def gen_workload(tape):
     # B shifted in time: 0 = same span; otherwise B starts after A's last file
     # (no file of A has a partner -> the empty answer must come out cleanly)
     w["B"]["shift_h"] = tape.pick([0, 0, 0, 0, 0, 0, 0, H + 6], "shiftB")
-    w["max_interval"] = tape.pick([3600, 300, 30, 10800], "mi")
+    w["max_interval"] = tape.pick([3600, 300, 30, 10800, 90000], "mi")   # incl. > 1 day
     w["max_interval_as"] = tape.pick(["number", "string", "timedelta"], "mi_as")
     w["max_distance"] = tape.pick([1.0, 50.0, 0.1, 500.0], "md")
     w["max_distance_as"] = tape.pick(["number", "km", "m"], "md_as")
